@@ -303,3 +303,6 @@ func vAddrSpelling(site string, addr string) string {
 	}
 	return addr
 }
+
+// vRepeats: natively Go's map iteration order is random, so order-dependence is observed by repetition
+func vRepeats(n int) int { return n }
